@@ -104,7 +104,17 @@ def check_weighted(ctx, case) -> None:
             w = want_g.get(t["name"], 0.0)
             ctx.check(av == w or abs(av - w) <= 1e-12 + 4 * math.ulp(max(abs(av), abs(w))), "activation-degree",
                       case, {"term": t["name"], "got": av, "want": w})
-    # 2. defuzzified value
+    # 2. defuzzified value (optionally after the same defuzzifier object served an output of another kind)
+    if case.get("warmup"):
+        wterm = {"ts": fl.Constant("wc", 1.5), "mono": fl.Ramp("wr", 0.0, 2.0),
+                 "other": fl.Triangle("wt", 0.0, 1.0, 2.0)}[case["warmup"]]
+        try:
+            dz.defuzzify(fl.Aggregated("W", 0.0, 2.0, None, [fl.Activated(wterm, 0.5, None)]))
+        except (TypeError, RuntimeError, ValueError):
+            pass  # eg, explicit Tsukamoto type on a non-monotonic term: irrelevant here
+        ctx.cls("warmup:" + case["warmup"])
+        ctx.check(dz.type.name == case["type"] and dz.parameters() == ("" if case["type"] == "Automatic" else case["type"]),
+                  "configured-type-changed-by-use", case, {"type": dz.type.name, "parameters": dz.parameters()})
     outcome = None
     try:
         z = dz.defuzzify(agg)
@@ -228,7 +238,9 @@ def cases(draw):
     return {"defuzzifier": draw(st.sampled_from(["WeightedAverage", "WeightedSum"])),
             "type": draw(st.sampled_from(["Automatic", "Automatic", "TakagiSugeno", "Tsukamoto"])),
             "aggregation": draw(st.sampled_from(refmath.SNORMS + [None, None, None])),
-            "inputs": inputs, "terms": terms, "acts": acts}
+            "inputs": inputs, "terms": terms, "acts": acts,
+            # the same defuzzifier object is first used on another output (a defuzzifier holds no state between calls)
+            "warmup": draw(st.sampled_from([None, None, "ts", "mono", "other"]))}
 
 
 def shard(ctx, shard, nshards, ex):
